@@ -176,7 +176,7 @@ class Spec:
         raise EngineError('not an integer')
 
     def is_lit(self, v):
-        return isinstance(v.t, tuple) and v.t[0] == '$lit'
+        return isinstance(v.t, tuple) and v.t[0] in ('$lit', '$litite')
 
     def is_poly(self, v):
         return isinstance(v.t, tuple) and v.t[0] in ('$none', '$nil')
@@ -199,6 +199,12 @@ class Spec:
         x = other.x
         if isinstance(x, PAddr) or isinstance(x, list):
             raise EngineError('literal vs non-scalar')
+        if lit.t[0] == '$litite':
+            c, a, b = lit.x
+            if z3.is_bv(x):
+                return V(other.t, z3.If(c, z3.BitVecVal(a, x.size()), z3.BitVecVal(b, x.size())))
+            if z3.is_int(x):
+                return V(other.t, z3.If(c, z3.IntVal(a), z3.IntVal(b)))
         if z3.is_bv(x):
             return V(other.t, z3.BitVecVal(lit.x, x.size()))
         if z3.is_int(x):
@@ -244,6 +250,15 @@ class Spec:
             env2 = dict(env)
             env2[e[1]] = ('val', v)
             return self.eval(ex, e[3], env2, st, old)
+        if k == 'lambda':
+            t = self.resolve_type(ex, e[2])
+            c = z3.Const('lam_' + e[1], ex.ts.sort(t))
+            env2 = dict(env)
+            env2[e[1]] = ('val', ex.ts.unpack(t, c))
+            body = self.eval(ex, e[3], env2, st, old)
+            if isinstance(body.t, tuple) and body.t[0] == '$opt':
+                return V(('$map', t, body.t[1]), z3.Lambda([c], body.x))
+            return V(('$arr', t, body.t), z3.Lambda([c], ex.term(body)))
         if k in ('forall', 'exists'):
             env2 = dict(env)
             bound = []
@@ -472,7 +487,7 @@ class Spec:
             c = self.eval_bool(ex, args[0], env, st, old)
             a, b = self.coerce(ex, ev(args[1]), ev(args[2]))
             if self.is_lit(a):
-                return V(('$mathint',), z3.If(c, z3.IntVal(a.x), z3.IntVal(b.x)))
+                return V(('$litite',), (c, a.x, b.x))
             return self.ite(ex, c, a, b)
         if fn == 'view':
             m = ev(args[0])
@@ -552,24 +567,39 @@ class Spec:
             f = ev(args[0])
             n = len([e for e in st.trace if e[0] == 'cb' and e[1].eq(ex.term(f))])
             return LIT(n)
+        if fn == 'cbset':
+            f = ev(args[0])
+            names, pts = self.ledger(ex, st, self.sig_of(ex, f.t))
+            return V(('$arr', pts[0], 'bool'), z3.Select(st.ghost[names[-1]], ex.term(f)))
+        if fn == 'cbr':
+            f = ev(args[0])
+            names, pts = self.ledger(ex, st, self.sig_of(ex, f.t))
+            i = ev(args[1])
+            ii = z3.BitVecVal(i.x, 64) if self.is_lit(i) else i.x
+            nm = [x for x in names if x.startswith('cbR$')][0]
+            return V('bool', z3.Select(st.ghost[nm], ii))
         if fn in ('cbn', 'cbf', 'cba'):
             f = ev(args[0])
             names, pts = self.ledger(ex, st, self.sig_of(ex, f.t))
             if fn == 'cbn':
-                return V(('$mathint',), st.ghost[names[0]])
+                return V('int', st.ghost[names[0]])
             i = ev(args[1])
-            ii = z3.IntVal(i.x) if self.is_lit(i) else i.x
+            ii = z3.BitVecVal(i.x, 64) if self.is_lit(i) else i.x
             if fn == 'cbf':
                 return V(f.t, z3.Select(st.ghost[names[1]], ii))
             j = ev(args[2]).x
             return ex.ts.unpack(pts[j], z3.Select(st.ghost[names[2 + j]], ii))
+        if fn == 'wfslice':
+            x = ev(args[0])
+            b, ln, cp = x.x
+            return V('bool', z3.And(ln.x >= 0, ln.x <= cp.x, cp.x < (1 << 62), z3.Implies(ln.x > 0, Addr.aid(ex.term(b)) != 0)))
         if fn == 'len':
             x = ev(args[0])
             return x.x[1]
         if fn == 'card':
             m = ev(args[0])
-            f = z3.Function('Card_' + mangle(str(m.x.sort())), m.x.sort(), IntS)
-            return V(('$mathint',), f(m.x))
+            f = z3.Function('Card_' + mangle(str(m.x.sort())), m.x.sort(), BV64)
+            return V('int', f(m.x))
         if fn == 'bv2int':
             x = ev(args[0])
             return V(('$mathint',), z3.BV2Int(x.x, self.signed(ex, x)))
@@ -658,7 +688,7 @@ class Spec:
         site = 'L' + ex.line(ins)
         for c in con.of('requires'):
             g = self.eval_bool(ex, c.expr, env, st, st)
-            ex.oblige(st, '%s/%s/pre.%s.%s@%s' % (ex.tagstr(c), ex.short_fn(), callee, c.label or 'r%d' % c.line, site), g,
+            ex.oblige(st, '%s/%s/pre.%s.%s@%s' % (ex.tagstr(c), ex.short_fn(), callee, c.label or 'r%d' % c.ordinal, site), g,
                       tags=c.tags, where='%s:%d' % (c.file, c.line), kind='pre')
             st.pc.append(g)
         self.on_contract_call(ex, fr, ins, con, name, args, st)
@@ -730,6 +760,8 @@ class Spec:
         ex.oblige(st, 'C13/%s/callback.unlocked@%s' % (ex.short_fn(), site), z3.BoolVal(locked == 0), tags=['C13', 'C06'],
                   kind='discipline')
         st.trace.append(('cb', None, [], [], site, pure, locked))
+        if getattr(ex, 'dry', 0):
+            return
         self.reentrant_havoc(ex, st, pure)
 
     def on_contract_call(self, ex, fr, ins, con, name, args, st):
@@ -847,8 +879,196 @@ class Spec:
             env2[n] = ('val', ex.fresh_val(rt, 'nocall', st_no))
         k(st_no, env2)
 
+    def havoc_for_history(self, ex, st):
+        """An arbitrary earlier state of the container (all view ghosts arbitrary)."""
+        for g in list(st.ghost.keys()):
+            if g.startswith('view$'):
+                st.ghost[g] = ex.fresh('gH_' + mangle(g), st.ghost[g].sort())
+
+    def havoc_everything(self, ex, st, tag):
+        ex.collapse_mem(st)
+        ex.havoc_mem(st, tag=tag)
+        for g in list(st.ghost.keys()):
+            if g.startswith('$now'):
+                continue
+            st.ghost[g] = ex.fresh('g%s_%s' % (tag, mangle(g)), st.ghost[g].sort())
+
+    def closure_written_cells(self, ex, clo, depth=0):
+        """Captured cells (bindings) the closure may write: Store whose address derives from a free variable."""
+        f = self.prog.funcs.get(clo.fn)
+        out = []
+        if f is None:
+            return out
+        derived = {}
+        for i, fvr in enumerate(f['freevars']):
+            derived[fvr['n']] = i
+        for b in f['blocks']:
+            for x in b['instrs']:
+                if x['op'] in ('FieldAddr', 'IndexAddr') and x['x'].get('n') in derived and x['x']['k'] in ('freevar', 'reg'):
+                    derived[x['name']] = derived[x['x']['n']]
+        for b in f['blocks']:
+            for x in b['instrs']:
+                if x['op'] == 'Store' and x['addr'].get('n') in derived:
+                    out.append(clo.bindings[derived[x['addr']['n']]])
+                if x['op'] == 'MapUpdate':
+                    pass
+        return out
+
+    def havoc_iteration(self, ex, st, fv, tag, argtypes, pure):
+        """State at the start of an arbitrary iteration of a higher-order traversal.  What one visitor invocation can
+        modify is inferred by a dry run of the visitor on arbitrary arguments (obligations discarded): ghost
+        variables it changes and memory cells it writes become arbitrary; on top of that the effect of re-entrant
+        callbacks (frames of the exported methods) applies unless everything so far was pure (`pure`)."""
+        st_d = st.copy()
+        n_obl = len(ex.obls)
+        n_cov = len(ex.covers)
+        args = [ex.fresh_val(t, 'dry', st_d) for t in argtypes]
+        outs = []
+        ex.dry = getattr(ex, 'dry', 0) + 1
+        saved_paths = ex.paths
+        try:
+            fr0 = Frame({'name': ex.cur_fn, 'blocks': []})
+            ex.call_value(fr0, {'pos': '', 'name': None}, fv, args, st_d, lambda s2, r: outs.append(s2))
+        finally:
+            ex.dry -= 1
+            del ex.obls[n_obl:]
+            del ex.covers[n_cov:]
+            ex.paths = saved_paths
+        return ex.apply_inferred_havoc(st, outs, tag, pure)
+
+    def site_clauses(self, ex, callee_short, what):
+        con = ex.cur_contract
+        out = []
+        if con is None:
+            return out
+        for cl in con.of('at'):
+            if cl.extra['what'] == what and (cl.extra['site'] == callee_short or callee_short.endswith('.' + cl.extra['site'])):
+                out.append(cl)
+        return out
+
     def iterates_caller(self, ex, fr, ins, con, c, env, st, old, k):
-        raise EngineError('iterates not implemented')
+        """`iterates f over view(m)` (higher-order contract of Range), sequential mode.
+
+        The callee invokes f(k, v) for keys k, one at a time, never twice for the same key, with no lock held, where
+        (k, v) was an entry of the map at some instant of the call; it stops when f returns false.  If every visitor
+        invocation so far changed at most its own key (checked, under `cbpure`), then v is the key's current value
+        and at normal exit every key present at entry has been visited.  The caller supplies the loop invariant
+        (`at Range: invariant ...`, over the ghost set `visited`).
+        """
+        m0 = re.match(r'^(\w+)\s+over\s+(.*)$', c.extra['arg'])
+        fv = self.eval(ex, ('id', m0.group(1)), env, st, old)
+        mexpr = specparse.parse_expr(m0.group(2))
+
+        def mapval(stx):
+            """The traversed map in state stx (an expression over the callee's parameters)."""
+            return self.eval(ex, mexpr, env, stx, old)
+        M0v = mapval(st)
+        kt, vt = M0v.t[1], M0v.t[2]
+        ks, vs = ex.ts.sort(kt), ex.ts.sort(vt)
+        callee = self.prog.short(con.fn)
+        site = 'L' + ex.line(ins)
+        invs = self.site_clauses(ex, callee, 'invariant')
+        iters = self.site_clauses(ex, callee, 'iteration')
+        fn_old = getattr(ex, 'fn_old', old)
+        caller_short = ex.short_fn()
+
+        def cenv(frx, stx, extra):
+            e2 = dict(ex.local_env(frx, stx))
+            e2.update(ex.cur_env)
+            e2.update(extra)
+            return e2
+
+        visT = ('$arr', kt, 'bool')
+        V0 = M0v.x
+        sp = {'view0': ('val', V(('$map', kt, vt), V0))}
+        vis0 = z3.K(ks, z3.BoolVal(False))
+        e0 = cenv(fr, st, dict(sp, visited=('val', V(visT, vis0))))
+        for cl in invs:
+            g = self.eval_bool(ex, cl.expr, e0, st, fn_old)
+            ex.oblige(st, '%s/%s/iter.%s.%s.init@%s' % (ex.tagstr(cl), caller_short, callee, cl.label or 'inv%d' % cl.ordinal, site), g,
+                      tags=cl.tags, where='%s:%d' % (cl.file, cl.line), kind='invariant')
+        # ---- arbitrary iteration -------------------------------------------------------------------------------
+        st1 = st.copy()
+        pure_before = ex.fresh('iter_pure_before', BoolS)
+        if not self.havoc_iteration(ex, st1, fv, 'I', [kt, vt], pure_before):
+            # the visitor cannot run re-entrant code: nothing but the visitor itself changes the state
+            st1.pc.append(pure_before)
+        vis = ex.fresh('visited', z3.ArraySort(ks, BoolS))
+        e1 = cenv(fr, st1, dict(sp, visited=('val', V(visT, vis))))
+        for cl in invs:
+            st1.pc.append(self.eval_bool(ex, cl.expr, e1, st1, fn_old))
+        kk = ex.fresh_val(kt, 'it_k', st1)
+        vv = ex.fresh_val(vt, 'it_v', st1)
+        st1.pc.append(z3.Not(z3.Select(vis, ex.ts.pack(kk))))
+        # weak fact: (kk, vv) was an entry of the traversed map in some state that satisfied the re-entry invariant
+        sth = st1.copy()
+        self.havoc_for_history(ex, sth)
+        n0 = len(sth.pc)
+        ccon = ex.cur_contract
+        for cl in (ccon.of('reenters') if ccon else []):
+            if cl.extra['arg']:
+                sth.pc.append(self.eval_bool(ex, specparse.parse_expr(cl.extra['arg']), ex.cur_env, sth, sth))
+        st1.pc.extend(sth.pc[n0:])
+        st1.pc.append(z3.Select(mapval(sth).x, ex.ts.pack(kk)) == ex.ts.opt_some(vs, ex.ts.pack(vv)))
+        # strong fact under purity of everything that ran so far
+        view_pre = mapval(st1).x
+        st1.pc.append(z3.Implies(pure_before, z3.Select(view_pre, ex.ts.pack(kk)) == ex.ts.opt_some(vs, ex.ts.pack(vv))))
+        st1.trace = [t for t in st1.trace if t[0] != 'cb'] + [('cb', None, [], [], site, pure_before, 0)]
+        st1.iter = (kk, vv)
+        ntrace = len(st1.trace)
+        if not getattr(ex, 'dry', 0):
+            ex.covers.append(('cover/%s/iter.%s.body@%s' % (caller_short, callee, site), list(st1.pc)))
+
+        def after(st2, res):
+            cont = res.x
+            vis2 = z3.Store(vis, ex.ts.pack(kk), z3.BoolVal(True))
+            fr2 = fr
+            e2 = cenv(fr2, st2, dict(sp, visited=('val', V(visT, vis2)), itk=('val', kk), itv=('val', vv),
+                                     itret=('val', V('bool', cont))))
+            pid = '.'.join(st2.pathid[len(st.pathid):])
+            for cl in invs:
+                g = self.eval_bool(ex, cl.expr, e2, st2, fn_old)
+                ex.oblige(st2, '%s/%s/iter.%s.%s.preserve@%s#%s' % (ex.tagstr(cl), caller_short, callee, cl.label or 'inv%d' % cl.ordinal, site, pid),
+                          g, tags=cl.tags, where='%s:%d' % (cl.file, cl.line), kind='invariant')
+            evs = [t for t in st2.trace[ntrace:] if t[0] == 'cb' and t[1] is not None]
+            e2['itcalls'] = ('val', LIT(len(evs)))
+            if evs and evs[-1][3]:
+                e2['itfret'] = ('val', evs[-1][3][0])
+            for cl in iters:
+                if 'itfret' not in e2 and 'itfret' in (cl.etext if hasattr(cl, 'etext') else ''):
+                    continue
+                g = self.eval_bool(ex, cl.expr, e2, st2, fn_old)
+                ex.oblige(st2, '%s/%s/iter.%s.%s@%s#%s' % (ex.tagstr(cl), caller_short, callee, cl.label or 'it%d' % cl.ordinal, site, pid), g,
+                          tags=cl.tags, where='%s:%d' % (cl.file, cl.line), kind='invariant')
+            # own-key frame (premise of the strong fact), under purity of the user callbacks
+            pure_now = z3.And(*[t[5] for t in st2.trace if t[0] == 'cb' and t[5] is not None] + [z3.BoolVal(True)])
+            view_post = mapval(st2).x
+            g = z3.Implies(pure_now, view_post == z3.Store(view_pre, ex.ts.pack(kk), z3.Select(view_post, ex.ts.pack(kk))))
+            ex.oblige(st2, 'AUX/%s/iter.%s.ownkey-frame@%s#%s' % (caller_short, callee, site, pid), g, tags=[], kind='invariant')
+            # visitor returned false: the traversal stops here
+            st3 = st2.copy()
+            st3.pc.append(z3.Not(cont))
+            for cl in invs:
+                st3.pc.append(self.eval_bool(ex, cl.expr, e2, st3, fn_old))
+            st3.iter_exit = ('stopped', vis2)
+            k(st3, dict(env, visited=('val', V(visT, vis2))))
+
+        ex.call_value(fr.fork(), ins, fv, [kk, vv], st1, after)
+        # ---- normal exit -----------------------------------------------------------------------------------------
+        st4 = st.copy()
+        pure_all = ex.fresh('iter_pure_all', BoolS)
+        if not self.havoc_iteration(ex, st4, fv, 'E', [kt, vt], pure_all):
+            st4.pc.append(pure_all)
+        visE = ex.fresh('visitedE', z3.ArraySort(ks, BoolS))
+        e4 = cenv(fr, st4, dict(sp, visited=('val', V(visT, visE))))
+        for cl in invs:
+            st4.pc.append(self.eval_bool(ex, cl.expr, e4, st4, fn_old))
+        q = z3.Const('q_it', ks)
+        st4.pc.append(z3.Implies(pure_all, z3.ForAll([q], z3.Implies(ex.ts.opt_is_some(vs, z3.Select(V0, q)), z3.Select(visE, q)))))
+        st4.trace = [t for t in st4.trace if t[0] != 'cb'] + [('cb', None, [], [], site, pure_all, 0)]
+        if not getattr(ex, 'dry', 0):
+            ex.covers.append(('cover/%s/iter.%s.exit@%s' % (caller_short, callee, site), list(st4.pc)))
+        k(st4, dict(env, visited=('val', V(visT, visE))))
 
     def ledger(self, ex, st, sigt):
         """Ghost ledger of callback invocations, one per function signature: count N, callee F[i], args Aj[i]."""
@@ -856,10 +1076,20 @@ class Spec:
         sig = self.prog.under(sigt)[1]
         pts = sig.get('params') or []
         names = ['cbN$' + key, 'cbF$' + key] + ['cbA%d$%s' % (j, key) for j in range(len(pts))]
-        sorts = [IntS, z3.ArraySort(IntS, Fn)] + [z3.ArraySort(IntS, ex.ts.sort(pt)) for pt in pts]
+        sorts = [BV64, z3.ArraySort(BV64, Fn)] + [z3.ArraySort(BV64, ex.ts.sort(pt)) for pt in pts]
+        rts = sig.get('results') or []
+        if rts and ex.ts.rep(rts[0])[0] == 'bool':
+            names.append('cbR$' + key)
+            sorts.append(z3.ArraySort(BV64, BoolS))
+        if pts:
+            names.append('cbS$' + key)
+            sorts.append(z3.ArraySort(Fn, z3.ArraySort(ex.ts.sort(pts[0]), BoolS)))
         for n, srt in zip(names, sorts):
             if n not in st.ghost:
                 st.ghost[n] = z3.Const('g0_' + mangle(n), srt)
+                if n.startswith('cbN$'):
+                    # ghost counter: mathematically unbounded; assumed far from wrapping
+                    st.pc.append(z3.And(st.ghost[n] >= 0, st.ghost[n] < (1 << 62)))
         return names, pts
 
     def sig_of(self, ex, t):
@@ -872,10 +1102,19 @@ class Spec:
         sigt = self.sig_of(ex, fv.t)
         names, pts = self.ledger(ex, st, sigt)
         n = st.ghost[names[0]]
+        # ghost counter = mathematical integer encoded in 64 bits: it never gets near wrapping
+        st.pc.append(z3.And(n >= 0, n < (1 << 62)))
         st.ghost[names[1]] = z3.Store(st.ghost[names[1]], n, ex.term(fv))
         for j, a in enumerate(args):
             st.ghost[names[2 + j]] = z3.Store(st.ghost[names[2 + j]], n, ex.ts.pack(a))
+        for nm in names:
+            if nm.startswith('cbR$') and rets:
+                st.ghost[nm] = z3.Store(st.ghost[nm], n, rets[0].x)
         st.ghost[names[0]] = n + 1
+        if args and names[-1].startswith('cbS$'):
+            S = st.ghost[names[-1]]
+            st.ghost[names[-1]] = z3.Store(S, ex.term(fv), z3.Store(z3.Select(S, ex.term(fv)), ex.ts.pack(args[0]), z3.BoolVal(True)))
+        self.oncall(ex, fr, ins, fv, args, st)
         locked = getattr(st, 'locked', 0)
         if pol == 'reentrant':
             pure = ex.fresh('cbpure', BoolS)
@@ -884,6 +1123,28 @@ class Spec:
         st.trace.append(('cb', ex.term(fv), [a for a in args], rets, ex.line(ins), pure, locked))
         if pol == 'reentrant':
             self.reentry(ex, st, pure, 'L' + ex.line(ins))
+
+    def oncall(self, ex, fr, ins, fv, args, st):
+        """`oncall f: expr` -- obligation at every invocation of the function-typed parameter f (arg0, arg1... bound)."""
+        con = ex.cur_contract
+        if con is None or getattr(ex, 'dry', 0):
+            return
+        for cl in con.of('oncall'):
+            pname = cl.extra['fn']
+            ent = ex.cur_env.get(pname)
+            if not ent or not ex.term(ent[1]).eq(ex.term(fv)):
+                continue
+            e2 = dict(ex.cur_env)
+            e2.update(ex.local_env(fr, st))
+            for j, a in enumerate(args):
+                e2['arg%d' % j] = ('val', a)
+            it = getattr(st, 'iter', None)
+            if it:
+                e2['itk'] = ('val', it[0])
+                e2['itv'] = ('val', it[1])
+            g = self.eval_bool(ex, cl.expr, e2, st, getattr(ex, 'fn_old', st))
+            ex.oblige(st, '%s/%s/oncall.%s.%s@L%s' % (ex.tagstr(cl), ex.short_fn(), pname, cl.label or 'c%d' % cl.ordinal, ex.line(ins)), g,
+                      tags=cl.tags, where='%s:%d' % (cl.file, cl.line), kind='oncall')
 
     def reentry(self, ex, st, pure, site):
         """A re-entrant callback (or a callee that runs one): the re-entry invariant must hold now, everything
@@ -896,6 +1157,8 @@ class Spec:
                 e = specparse.parse_expr(c.extra['arg'])
                 g = self.eval_bool(ex, e, env, st, st)
                 ex.oblige(st, 'C13/%s/reentry.inv@%s' % (ex.short_fn(), site), g, tags=['C13'], kind='discipline')
+        if getattr(ex, 'dry', 0):
+            return
         self.reentrant_havoc(ex, st, pure)
         for c in invs:
             if c.extra['arg']:
@@ -912,8 +1175,73 @@ class Spec:
         return 'reentrant'
 
     def reentrant_havoc(self, ex, st, pure):
-        # a re-entrant callback may call any method of the container: abstract state becomes arbitrary
-        # unless the callback was pure (ghost flag), local (fresh) memory is untouched.
+        """A re-entrant callback may call any exported method of the container (C13).  Its possible effect on the
+        state is therefore the union of the frames (`modifies`) of those methods -- each of which is itself checked
+        (FRAME obligations).  Unless the callback was pure (ghost flag `pure`)."""
+        con = ex.cur_contract
+        f = self.prog.funcs.get(con.fn) if con is not None else None
+        if f is None or not f.get('hasrecv') or not f['params']:
+            return self.full_havoc(ex, st, pure)
+        # a closure of a method: use the parent's receiver
+        recv = f['params'][0]
+        rv = ex.cur_env[recv['n']][1]
+        rtype = recv['t']
+        items = []
+        for tgt, c2 in self.sf.contracts.items():
+            if c2.fn is None:
+                continue
+            f2 = self.prog.funcs[c2.fn]
+            if not f2.get('hasrecv') or not f2['params'] or f2['params'][0]['t'] != rtype:
+                continue
+            mname = c2.fn.rsplit('.', 1)[-1]
+            if not mname[:1].isupper():
+                continue
+            for it in self.modifies_items(c2):
+                items.append((it, f2['params'][0]['n']))
+        seen = set()
+        for it, rn in items:
+            if it in seen:
+                continue
+            seen.add(it)
+            before_g = dict(st.ghost)
+            before_m = {kx: (cx[0], list(cx[1])) for kx, cx in st.mem.items()}
+            try:
+                self.havoc_item(ex, it, {rn: ('val', rv)}, st, st)
+            except EngineError:
+                m = re.match(r'^ledger\((\w+)\)$', it.strip())
+                done = False
+                if m:
+                    # ledger of a function-typed parameter: ledgers are per signature
+                    for tgt, c2 in self.sf.contracts.items():
+                        if c2.fn is None or it not in self.modifies_items(c2):
+                            continue
+                        for prm in self.prog.funcs[c2.fn]['params']:
+                            if prm['n'] == m.group(1):
+                                names, pts = self.ledger(ex, st, self.sig_of(ex, prm['t']))
+                                for n in names:
+                                    st.ghost[n] = ex.fresh('g_' + mangle(n), st.ghost[n].sort())
+                                done = True
+                if not done:
+                    return self.full_havoc(ex, st, pure)
+            # guard by purity
+            for g, cur in list(st.ghost.items()):
+                b = before_g.get(g)
+                if b is None and not g.startswith('$'):
+                    b = z3.Const('g0_' + mangle(g), cur.sort())     # created just now: its initial value
+                if b is not None and not b.eq(cur):
+                    st.ghost[g] = z3.If(pure, b, cur)
+            for kx, cx in st.mem.items():
+                b = before_m.get(kx)
+                if b is None:
+                    continue
+                for j in range(len(cx[1])):
+                    pj, vj = cx[1][j]
+                    if any(addr_same(pj, q) and w.eq(vj) for (q, w) in b[1]):
+                        continue
+                    prev = ex.load_leaf_from(b, cx[2], pj)
+                    cx[1][j] = (pj, z3.If(pure, prev, vj))
+
+    def full_havoc(self, ex, st, pure):
         for g in list(st.ghost.keys()):
             if g.startswith('$now'):
                 continue
@@ -922,14 +1250,12 @@ class Spec:
         for key, cell in st.mem.items():
             keep = [(p, v) for (p, v) in cell[1] if p.cid is not None]
             drop = [(p, v) for (p, v) in cell[1] if p.cid is None]
-            if drop or True:
-                base = cell[0]
-                for (p, v) in drop:
-                    base = z3.Store(base, p.term(), v)
-                nb = ex.fresh('Mcb_' + mangle(key), base.sort())
-                # fresh objects keep their contents: ids < 0 are unchanged by the callback
-                cell[0] = z3.If(pure, base, nb)
-                cell[1] = keep
+            base = cell[0]
+            for (p, v) in drop:
+                base = z3.Store(base, p.term(), v)
+            nb = ex.fresh('Mcb_' + mangle(key), base.sort())
+            cell[0] = z3.If(pure, base, nb)
+            cell[1] = keep
 
     def do_append(self, ex, fr, ins, args, st, k):
         """append(s, elems...) with elems a slice of statically known length: result is a fresh backing
@@ -946,32 +1272,27 @@ class Spec:
         st.nalloc += 1
         nb = PAddr(cid=-st.nalloc)
         newlen = ln.x + n
-        g = z3.BVSGE(newlen, ln.x)
+        g = (newlen >= ln.x)
         st.pc.append(g)   # allocation assumption: slices never reach 2^63 elements
-        # copy axiom: for all i < len: new[i] = old[i]  -- recorded per leaf sort
-        ex.append_copies = getattr(ex, 'append_copies', [])
+        # copy axiom: for all i < len: new[i] = old[i].  The new backing array is a fresh object: its cells were
+        # never constrained before, so stating their contents is sound.
         leaves = self.leaf_paths(ex, et)
+        i = z3.Const('ap_i', BV64)
         for (path, lt) in leaves:
-            srt = ex.ts.sort(lt) if ex.ts.rep(lt)[0] != 'addr' else Addr
+            srt = Addr if (lt == '$addr' or ex.ts.rep(lt)[0] == 'addr') else ex.ts.sort(lt)
             arr = ex.mem_array(st, srt)
-            i = z3.Const('ap_i', BV64)
             src = base.x.ext(i)
             dst = nb.ext(i)
             for s_ in path:
                 src = src.ext(s_)
                 dst = dst.ext(s_)
-            # new memory: a fresh array equal to the old one except on the new object
-            newarr = ex.fresh('Mapp_' + mangle(str(srt)), arr.sort())
-            a = z3.Const('ap_a', Addr)
-            st.pc.append(z3.ForAll([a], z3.Implies(Addr.aid(a) != nb.cid, z3.Select(newarr, a) == z3.Select(arr, a))))
-            st.pc.append(z3.ForAll([i], z3.Implies(z3.ULT(i, ln.x), z3.Select(newarr, dst.term()) == z3.Select(arr, src.term()))))
-            cell = ex._memcell(st, srt)
-            cell[0] = newarr
-            cell[1] = []
+            st.pc.append(z3.ForAll([i], z3.Implies(z3.ULT(i, ln.x), z3.Select(arr, dst.term()) == z3.Select(arr, src.term()))))
         for j in range(n):
             v = ex.load(st, et, more.x[0].x.ext(j))
             ex.store(st, nb.ext(ex.selc(ln.x + j)), v)
-        k(st, V(s.t, [V('$addr', nb), V('int', newlen), V('int', ex.fresh('newcap', BV64))]))
+        newcap = ex.fresh('newcap', BV64)
+        st.pc.append(z3.And(newcap >= newlen, newcap < (1 << 62)))   # allocation assumption
+        k(st, V(s.t, [V('$addr', nb), V('int', newlen), V('int', newcap)]))
 
     def leaf_paths(self, ex, t, prefix=()):
         r = ex.ts.rep(t)
